@@ -749,11 +749,11 @@ def run_certificates(ctx, results):
 # ----------------------------------------------------------------------------------------------
 # documented accuracy for concordance-like parameters (integral enclosures)
 # ----------------------------------------------------------------------------------------------
-INTEGRAL = "with (i_degree 12, i_fuel 2000, i_relwidth 44)"
+INTEGRAL = "with (i_degree 10, i_fuel 200, i_relwidth 34)"
 
 ACC_TAC = r"""
 Ltac c11_unf := unfold within_rel, distmod_def, log10, dV_def, Dl_def, Da_def, Dm_def, V_closed, Vcum_closed,
-  Dc_def in *; rewrite ?Dm_of_def_flat, ?Vcum_of_flat by (cbn; lra);
+  Dc_def in *; rewrite ?Dm_of_def_flat, ?Vcum_of_flat by (unfold cosmoR_of, q2R; cbn; lra);
   rewrite ?I_def_same; unfold I_def, Einv_def, E2, cosmoR_of, q2R, FOUR_PI_G_OVER_C2;
   cbn [cDH cflat com col cok qDH qflat qom qol qok fst snd].
 Ltac c11_ints := repeat match goal with |- context [RInt ?f ?a ?b] =>
@@ -812,7 +812,7 @@ def run_accuracy(ctx, results):
         owner.append((case, res, conj))
     if not lem:
         return
-    out = core.coq_lemmas(os.path.join(ctx.work, "acc"), PRE_ACC + ACC_TAC, lem, shard=2, tag="acc", timeout=600)
+    out = core.coq_lemmas(os.path.join(ctx.work, "acc"), PRE_ACC + ACC_TAC, lem, shard=2, tag="acc", timeout=150)
     nok = 0
     for (case, res, conj), (ok, msg) in zip(owner, out):
         ctx.count("accuracy:%s:%s" % ("z<=1" if case["z2"] <= 1 else "z<=5", "ok" if ok else "FAILED"))
@@ -821,7 +821,7 @@ def run_accuracy(ctx, results):
             continue
         # attribute: one lemma per quantity
         single = core.coq_lemmas(os.path.join(ctx.work, "acc1"), PRE_ACC + ACC_TAC,
-                                 [(s, "c11_unf; c11_ints; c11_fin.") for _, s in conj], shard=1, tag="acc1", timeout=600)
+                                 [(s, "c11_unf; c11_ints; c11_fin.") for _, s in conj], shard=1, tag="acc1", timeout=150)
         bad = [q for (q, _), (k, _m) in zip(conj, single) if not k]
         ctx.obligation("documented accuracy %r" % (case,), False, msg)
         ctx.violation("documented accuracy (1e-6 at z<=1, 1e-3 at z<=5, concordance-like) not certified for %s" % (bad or "?"),
